@@ -10,6 +10,10 @@ def init():
     cssutils.log.setLevel(logging.FATAL)
     cssutils.log.raiseExceptions = True
     cssutils.ser.prefs.useDefaults()
+    # every trace starts from the state a fresh process has (leakage between calls is C12's subject)
+    import cssutils.prodparser as pp
+    del pp.savedTokens[:]
+    pp.tokenizer.clear()
 
 
 def esc(s):
